@@ -1,4 +1,5 @@
 import NrDaemon.Lemmas.Proc
+import NrDaemon.Lemmas.Lifecycle
 /-!
   C04 — applications are isolated from each other.
 -/
@@ -69,3 +70,20 @@ theorem C04_data_usage_params (s : PState) (gid : Nat) :
         have hmem := List.mem_of_find?_eq_some hg
         have hid := List.find?_some hg
         exact ⟨g, hmem, by simpa using hid, rfl, rfl, rfl, rfl⟩
+
+/-! ## Over all histories of the processor loop (`Lemmas/Lifecycle.lean`) -/
+
+/-- **C04 (an application's identity never changes; all histories).**  Once an application is known under a handle, no
+sequence of agent queries, transactions, triggers, replies (any outcome, any order) or clock advances changes its
+description — license, name, redirect collector, high-security flag, language, host, … — which is what every request made
+for its runs is built from (`C04_args_from_app`); the application can only be forgotten (inactivity). -/
+theorem C04_identity_stable (s : PState) (es : List PEvent) (h : String) (c : AppCfg) (hc : appCfg s h = some c) :
+    appCfg (s.runEvents es) h = some c ∨ ∃ es1 es2, es = es1 ++ es2 ∧ appCfg (s.runEvents es1) h = none := by
+  induction es generalizing s with
+  | nil => exact Or.inl hc
+  | cons e es ih =>
+    rcases step_cfg s e h c hc with h1 | h1
+    · rcases ih (s.step e) h1 with h2 | ⟨es1, es2, he, hn⟩
+      · exact Or.inl h2
+      · exact Or.inr ⟨e :: es1, es2, by simp [he], hn⟩
+    · exact Or.inr ⟨[e], es, rfl, h1⟩
